@@ -193,8 +193,12 @@ PROPS = {
         "partial": ["decoding a frame body into a performative is the typed codec (C03/C20), exercised by the rt cases, not modelled here"],
     },
     "C02": {
-        "class_prefixes": ["c02-", "harness-crash"],
+        "class_prefixes": ["c02-", "harness-crash", "c16-send-never-settled"],
         "subs": [
+            {"name": "hreuse", "n_quick": 60, "n_thorough": 1500, "oracle": False,
+             "rule": "the multi-link scripts of C11 (three sending links on one real session; the scripted peer numbers its link ends the other way round than "
+                     "the client and rejects the deliveries of link b while accepting the others): every send resolves, and with the outcome the peer gave "
+                     "for that very delivery (classes c02-foreign-outcome, c02-outcome-missing)"},
             {"name": "rx", "n_quick": 1000, "n_thorough": 30000, "model": "coq/Link/Receiver.v",
              "rule": "receiver side: the rx scripts of C09/C10 (rcv-settle-mode second: unsettled until the sender's settling disposition; dispositions settled or not according to the mode of each delivery)"},
             {"name": "c02", "n_quick": 2500, "n_thorough": 100000, "model": "coq/Session/Disposition.v",
